@@ -3,12 +3,17 @@ package main
 // Cross-cutting properties decided through the shared entry-point runner (ep.go).
 
 import (
+	"bufio"
 	"fmt"
+	"os"
+	"os/exec"
 	"regexp"
 	"runtime"
 	"strings"
 	"sync"
 	"time"
+
+	"vh/internal/drv"
 )
 
 type epCase struct {
@@ -202,4 +207,368 @@ func runPool(n int, timeout time.Duration, fn func(wk *Worker, i int)) {
 	}
 	close(ch)
 	wg.Wait()
+}
+
+func init() {
+	props["C08"] = runC08
+	props["C04"] = runC04
+	props["C14"] = runC14
+	props["C15"] = runC15
+}
+
+// genExifInputs: generated well-formed Exif files in the containers (valid metadata, so that results are non-trivial)
+func genExifInputs(c *Ctx, n int) []epInput {
+	var out []epInput
+	for i := 0; i < n; i++ {
+		r := genRecord(c)
+		lo := layoutOpt{shuffleEntries: c.Rng.Intn(2) == 0, foreign: c.Rng.Intn(3), pad: []int{0, 1, 7}[c.Rng.Intn(3)], headerPad: []int{0, 0, 18}[c.Rng.Intn(3)], entryOrderVals: c.Rng.Intn(2) == 0}
+		t := buildTIFF(c, r, c.Rng.Intn(2) == 0, lo)
+		out = append(out, epInput{fmt.Sprintf("gen/tiff%d.tif", i), t, "gen"})
+		switch i % 3 {
+		case 0:
+			out = append(out, epInput{fmt.Sprintf("gen/%d.jpg", i), inJPEG(c, t, true), "gen"})
+		case 1:
+			out = append(out, epInput{fmt.Sprintf("gen/%d.png", i), inPNG(c, t, true), "gen"})
+		default:
+			out = append(out, epInput{fmt.Sprintf("gen/%d.heic", i), inHEIF(c, t, true), "gen"})
+		}
+	}
+	return out
+}
+
+// C08 — results do not depend on how the reader chunks its data
+func runC08(c *Ctx) error {
+	c.Res.Rule = "every decode entry point x (sample files, crafted files, generated well-formed Exif files in TIFF/JPEG/PNG/HEIF, mutations) under: plain in-memory reader (reference); one byte at a time; two alternating small chunk sizes; random positive chunk schedule; last bytes delivered together with io.EOF; all of them combined. The canonical result (value and error class) must equal the reference. Non-trivial: reference result carries at least one field or a specific error; distinct by (entry, bytes, schedule)."
+	ins := append(corpus(c, c.N(6, 200), c.N(60, 2000)), genExifInputs(c, c.N(60, 2500))...)
+	scheds := func() []string {
+		return []string{"sched=1", fmt.Sprintf("sched=%d,%d", 1+c.Rng.Intn(7), 1+c.Rng.Intn(3)), fmt.Sprintf("sched=%d,%d,%d deof", 1+c.Rng.Intn(600), 1+c.Rng.Intn(40), 1+c.Rng.Intn(5000)), "deof", "sched=1 deof"}
+	}
+	var cases []epCase
+	type grp struct{ ref int; alts []int }
+	var groups []grp
+	for _, in := range ins {
+		for _, e := range entriesFor(in, c) {
+			if e == "ItBuf" {
+				continue
+			}
+			g := grp{ref: len(cases)}
+			cases = append(cases, epCase{Entry: e, In: in, Opts: ""})
+			ss := scheds()
+			k := 2
+			if in.Kind == "crafted" || in.Kind == "gen" || in.Kind == "sample" {
+				k = len(ss)
+			}
+			for _, o := range ss[:k] {
+				g.alts = append(g.alts, len(cases))
+				cases = append(cases, epCase{Entry: e, In: in, Opts: o})
+			}
+			groups = append(groups, g)
+		}
+	}
+	sweep(cases, 10*time.Second)
+	if err := bufioCorrespondence(c); err != nil {
+		return err
+	}
+	for _, g := range groups {
+		ref := cases[g.ref]
+		refRes := ref.Ans.Canon
+		if ref.Ans.Crash != "" {
+			refRes = "CRASH " + panicClass(ref.Ans.Crash)
+		}
+		for _, ai := range g.alts {
+			a := cases[ai]
+			res := a.Ans.Canon
+			if a.Ans.Crash != "" {
+				res = "CRASH " + panicClass(a.Ans.Crash)
+			}
+			c.Count(a.Entry+a.In.Name+a.Opts+fmt.Sprint(fnv32(a.In.Data)), strings.Contains(refRes, "=") || !strings.HasPrefix(refRes, "nil"))
+			c.Stat("entry." + a.Entry)
+			c.Stat("opt." + strings.Fields(a.Opts + " -")[0])
+			if res != refRes {
+				kind := "wrong-value"
+				if a.Ans.Crash != "" {
+					kind = "panic"
+				}
+				c.Violate(Case{Entry: a.Entry, Input: hexs(a.In.Data) + " " + a.Opts, Expected: refRes, Actual: res, Kind: kind, Frame: frameOf(a.Ans.Crash),
+					Class: "chunking:" + diffClass(refRes, res, ""), Note: a.In.Name})
+			}
+		}
+	}
+	return nil
+}
+
+// C04 — a result depends only on the bytes of that call
+func runC04(c *Ctx) error {
+	c.Res.Rule = "every decode entry point x (samples, crafted, generated Exif files, mutations): the result on pristine pooled state (all pooled buffers zeroed through the verif hook) must equal the result after the pools were poisoned with adversarial content (large offsets in every tag slot, non-zero scratch bytes, two different patterns) and after the natural history of the worker (thousands of earlier decodes); hashes: C19. Non-trivial: every case; distinct by (entry, bytes, history)."
+	ins := append(corpus(c, c.N(6, 200), c.N(60, 2000)), genExifInputs(c, c.N(60, 2500))...)
+	var cases []epCase
+	type grp struct{ idx []int }
+	var groups []grp
+	for _, in := range ins {
+		for _, e := range entriesFor(in, c) {
+			g := grp{}
+			for _, o := range []string{"poison=-1", "poison=3", "poison=77", ""} {
+				g.idx = append(g.idx, len(cases))
+				cases = append(cases, epCase{Entry: e, In: in, Opts: o})
+			}
+			groups = append(groups, g)
+		}
+	}
+	sweep(cases, 10*time.Second)
+	for _, g := range groups {
+		ref := cases[g.idx[0]]
+		refRes := ref.Ans.Canon
+		if ref.Ans.Crash != "" {
+			refRes = "CRASH " + panicClass(ref.Ans.Crash)
+		}
+		for _, ai := range g.idx[1:] {
+			a := cases[ai]
+			res := a.Ans.Canon
+			if a.Ans.Crash != "" {
+				res = "CRASH " + panicClass(a.Ans.Crash)
+			}
+			c.Count(a.Entry+a.In.Name+a.Opts+fmt.Sprint(fnv32(a.In.Data)), true)
+			c.Stat("entry." + a.Entry)
+			c.Stat("history." + a.Opts)
+			if res != refRes {
+				c.Violate(Case{Entry: a.Entry, Input: hexs(a.In.Data) + " " + a.Opts, Expected: refRes, Actual: res, Kind: "wrong-value",
+					Class: "history:" + diffClass(refRes, res, ""), Note: a.In.Name})
+			}
+		}
+	}
+	return nil
+}
+
+// C14 — memory allocated by a decode is bounded by the input size
+func runC14(c *Ctx) error {
+	c.Res.Rule = "every decode / preview entry point x the corpus (incl. tampered size, count and length fields) in single-goroutine workers: runtime.MemStats.TotalAlloc delta around the call <= 4 MiB + 16*len(input). Non-trivial: every case."
+	ins := append(corpus(c, c.N(40, 1500), c.N(200, 6000)), genExifInputs(c, c.N(40, 1000))...)
+	cases := buildCases(c, ins, func(in epInput, e string) []string { return []string{""} })
+	sweep(cases, 10*time.Second)
+	for _, cs := range cases {
+		c.Count(cs.Entry+cs.In.Name+fmt.Sprint(fnv32(cs.In.Data)), true)
+		c.Stat("entry." + cs.Entry)
+		if cs.Ans.Crash != "" {
+			if strings.Contains(cs.Ans.Crash, "out of memory") || strings.Contains(cs.Ans.Crash, "makeslice") {
+				c.Violate(Case{Entry: cs.Entry, Input: hexs(cs.In.Data), Expected: "bounded allocation", Actual: cs.Ans.Crash, Kind: "alloc", Class: "fatal-allocation", Note: cs.In.Name})
+			}
+			continue
+		}
+		bound := 4*1024*1024 + 16*len(cs.In.Data)
+		if cs.Ans.Alloc > bound {
+			c.Violate(Case{Entry: cs.Entry, Input: hexs(cs.In.Data), Expected: fmt.Sprintf("<= %d bytes", bound), Actual: fmt.Sprintf("%d bytes allocated", cs.Ans.Alloc), Kind: "alloc", Class: "allocation-from-size-field", Note: cs.In.Name})
+		}
+		if cs.Ans.Alloc > 65536+4*len(cs.In.Data) {
+			c.Stat("alloc.over-64KiB+4n")
+		}
+	}
+	return nil
+}
+
+// C15 — logging is neutral; the default configuration is silent
+func runC15(c *Ctx) error {
+	c.Res.Rule = "every decode entry point x the corpus x log levels {trace, debug, info, warn, error, fatal, panic, disabled} set through imagemeta.SetLogger into a buffer: canonical result equal to the default configuration's; under the default configuration nothing is written to file descriptors 1 and 2 of the worker process (measured through a redirected scratch file) and the library's logger writes nothing. Non-trivial: every case."
+	ins := append(corpus(c, c.N(5, 150), c.N(40, 1500)), genExifInputs(c, c.N(30, 800))...)
+	levels := []string{"trace", "debug", "info", "warn", "error", "fatal", "panic", "disabled"}
+	var cases []epCase
+	type grp struct{ ref int; alts []int }
+	var groups []grp
+	for _, in := range ins {
+		for _, e := range entriesFor(in, c) {
+			g := grp{ref: len(cases)}
+			cases = append(cases, epCase{Entry: e, In: in, Opts: ""})
+			ls := levels
+			if in.Kind != "crafted" && in.Kind != "sample" && in.Kind != "gen" {
+				ls = []string{levels[c.Rng.Intn(3)], levels[3+c.Rng.Intn(5)]}
+			}
+			for _, l := range ls {
+				g.alts = append(g.alts, len(cases))
+				cases = append(cases, epCase{Entry: e, In: in, Opts: "log=" + l})
+			}
+			groups = append(groups, g)
+		}
+	}
+	sweep(cases, 10*time.Second)
+	for _, g := range groups {
+		ref := cases[g.ref]
+		refRes := ref.Ans.Canon
+		if ref.Ans.Crash != "" {
+			refRes = "CRASH " + panicClass(ref.Ans.Crash)
+		}
+		c.Count("default"+ref.Entry+ref.In.Name+fmt.Sprint(fnv32(ref.In.Data)), true)
+		if ref.Ans.Crash == "" && (ref.Ans.Out != 0) {
+			c.Violate(Case{Entry: ref.Entry, Input: hexs(ref.In.Data), Expected: "0 bytes on stdout/stderr under the default configuration", Actual: fmt.Sprintf("%d bytes written", ref.Ans.Out), Kind: "stdout", Class: "default-config-not-silent", Note: ref.In.Name})
+		}
+		for _, ai := range g.alts {
+			a := cases[ai]
+			res := a.Ans.Canon
+			if a.Ans.Crash != "" {
+				res = "CRASH " + panicClass(a.Ans.Crash)
+			}
+			c.Count(a.Entry+a.In.Name+a.Opts+fmt.Sprint(fnv32(a.In.Data)), true)
+			c.Stat("entry." + a.Entry)
+			c.Stat("level." + a.Opts)
+			if a.Ans.Log > 0 {
+				c.Stat("level-with-output." + a.Opts)
+			}
+			if res != refRes {
+				kind := "wrong-value"
+				if a.Ans.Crash != "" {
+					kind = "panic"
+				}
+				c.Violate(Case{Entry: a.Entry, Input: hexs(a.In.Data) + " " + a.Opts, Expected: refRes, Actual: res, Kind: kind, Frame: frameOf(a.Ans.Crash),
+					Class: "log-level-changes-result:" + diffClass(refRes, res, ""), Note: a.In.Name})
+			}
+			if a.Ans.Crash == "" && a.Ans.Out != 0 {
+				c.Violate(Case{Entry: a.Entry, Input: hexs(a.In.Data) + " " + a.Opts, Expected: "0 bytes on stdout/stderr (the logger writes to the configured writer)", Actual: fmt.Sprintf("%d bytes written", a.Ans.Out), Kind: "stdout", Class: "stdout-write", Note: a.In.Name})
+			}
+		}
+	}
+	return nil
+}
+
+// bufioCorrespondence ties the Lean bufio model (Peek / Discard over a scheduled source) to the real bufio.Reader.
+func bufioCorrespondence(c *Ctx) error {
+	var reqs, impl []string
+	for i := 0; i < c.N(600, 20000); i++ {
+		data := make([]byte, c.Rng.Intn(120))
+		c.Rng.Read(data)
+		var sched []int
+		var ss []string
+		for j := 0; j < c.Rng.Intn(6); j++ {
+			k := 1 + c.Rng.Intn(9)
+			sched = append(sched, k)
+			ss = append(ss, fmt.Sprint(k))
+		}
+		// the model's schedule is consumed once; the chunk reader cycles, so give the model a long repetition
+		full := "-"
+		if len(sched) > 0 {
+			var rep []string
+			for j := 0; j < 40; j++ {
+				rep = append(rep, ss...)
+			}
+			full = strings.Join(rep, ",")
+		}
+		size := 16 + c.Rng.Intn(40)
+		var ns []string
+		var nsi []int
+		for j := 0; j < 1+c.Rng.Intn(5); j++ {
+			n := c.Rng.Intn(size + 1)
+			nsi = append(nsi, n)
+			ns = append(ns, fmt.Sprint(n))
+		}
+		reqs = append(reqs, fmt.Sprintf("bufio.peek %s %s %d %s", hexs(data), full, size, strings.Join(ns, ",")))
+		br := bufio.NewReaderSize(&chunkReader{data: append([]byte{}, data...), sched: sched, failAt: -1}, size)
+		var out []string
+		for _, n := range nsi {
+			b, err := br.Peek(n)
+			ok := 0
+			if err == nil {
+				ok = 1
+			}
+			d, _ := br.Discard(n / 2)
+			out = append(out, fmt.Sprintf("%s:%d:%d", hexs(b), ok, d))
+		}
+		impl = append(impl, strings.Join(out, " "))
+	}
+	model, err := drv.Batch(reqs)
+	if err != nil {
+		return err
+	}
+	for i := range reqs {
+		c.Count(reqs[i], true)
+		c.Stat("bufio.model-vs-bufio")
+		if model[i] != impl[i] {
+			c.Disagree(Case{Entry: "bufio.Reader", Input: reqs[i], Expected: model[i], Actual: impl[i]})
+		}
+	}
+	return nil
+}
+
+func init() { props["C05"] = runC05 }
+
+// C05 — concurrent calls are race-free and match sequential runs: a -race build of cmd/vhrace is run on a mixed set of
+// inputs with 1..64 goroutines and three GOMAXPROCS settings; its race reports and result mismatches are violations.
+func runC05(c *Ctx) error {
+	c.Res.Rule = "a -race build of the soak program runs mixed entry points (Decode, DecodeTiff, DecodeJPEG, DecodePng, DecodeCR3, exif2.Parse, imagetype.Scan, both 64-bit hashes) on generated Exif files with time-zone tags (cold cache), samples and crafted files from G goroutines (G in {4, 16, 64}) x GOMAXPROCS in {1, 2, NumCPU}; every concurrent result must equal its sequential result and the race detector must stay silent. Non-trivial: every call."
+	dir, err := os.MkdirTemp("", "vhrace")
+	if err != nil {
+		return err
+	}
+	defer os.RemoveAll(dir)
+	bin := dir + "/vhrace"
+	build := exec.Command("go", "build", "-race", "-tags", "verif", "-o", bin, "./cmd/vhrace")
+	build.Dir = envOr("VERIF_HARNESS", "/verif/harness")
+	build.Env = append(os.Environ(), "CGO_ENABLED=1")
+	if alt := build.Dir + "/go.alt.mod"; envOr("VERIF_REPO", "/repo") != "/repo" {
+		build.Args = append(build.Args[:2], append([]string{"-modfile=" + alt}, build.Args[2:]...)...)
+	}
+	if out, err := build.CombinedOutput(); err != nil {
+		return fmt.Errorf("race build failed: %v\n%s", err, out)
+	}
+	ins := append(genExifInputs(c, c.N(30, 300)), craftedInputs()...)
+	ins = append(ins, sampleFiles()...)
+	var lines []string
+	for _, in := range ins {
+		d := in.Data
+		if len(d) > 16384 {
+			d = d[:16384]
+		}
+		if len(d) == 0 {
+			continue
+		}
+		es := entriesFor(in, c)
+		for _, e := range es {
+			switch e {
+			case "Decode", "DecodeTiff", "DecodeJPEG", "DecodePng", "DecodeCR3", "Parse", "ItScan":
+				lines = append(lines, e+" "+hexs(d))
+			}
+		}
+		if c.Rng.Intn(4) == 0 {
+			lines = append(lines, "Hash "+hexs(d[:1+c.Rng.Intn(len(d))]))
+		}
+	}
+	inf := dir + "/inputs.txt"
+	if err := os.WriteFile(inf, []byte(strings.Join(lines, "\n")+"\n"), 0o644); err != nil {
+		return err
+	}
+	for _, g := range []int{4, 16, 64} {
+		iters := c.N(60, 1500)
+		cmd := exec.Command(bin, fmt.Sprint(c.Seed), fmt.Sprint(g), fmt.Sprint(iters), inf)
+		cmd.Env = append(os.Environ(), "GORACE=exitcode=66 halt_on_error=0")
+		out, err := cmd.CombinedOutput()
+		calls := 3 * g * iters
+		c.StatN("calls", calls)
+		for i := 0; i < calls; i += 997 {
+			c.Count(fmt.Sprint("g", g, "i", i), true)
+		}
+		c.Res.Evaluations += calls - (calls+996)/997
+		c.Res.Distinct += calls - (calls+996)/997
+		s := string(out)
+		if strings.Contains(s, "WARNING: DATA RACE") {
+			i := strings.Index(s, "WARNING: DATA RACE")
+			rep := s[i:]
+			if len(rep) > 2500 {
+				rep = rep[:2500]
+			}
+			fr := "race"
+			for _, l := range strings.Split(rep, "\n") {
+				if strings.Contains(l, "imagemeta") && strings.Contains(l, "()") {
+					fr = strings.TrimSpace(l)
+					break
+				}
+			}
+			c.Violate(Case{Entry: "concurrent", Input: fmt.Sprintf("goroutines=%d iterations=%d seed=%d", g, iters, c.Seed), Expected: "race detector silent", Actual: rep, Kind: "race", Frame: fr, Class: "data-race"})
+		}
+		if strings.Contains(s, "FIRST ") {
+			c.Violate(Case{Entry: "concurrent", Input: fmt.Sprintf("goroutines=%d iterations=%d seed=%d", g, iters, c.Seed), Expected: "concurrent result == sequential result", Actual: s[strings.Index(s, "FIRST "):], Kind: "wrong-value", Class: "concurrent-result-differs"})
+		} else if err != nil && !strings.Contains(s, "WARNING: DATA RACE") {
+			tail := s
+			if len(tail) > 1500 {
+				tail = tail[len(tail)-1500:]
+			}
+			c.Violate(Case{Entry: "concurrent", Input: fmt.Sprintf("goroutines=%d iterations=%d seed=%d", g, iters, c.Seed), Expected: "soak completes", Actual: fmt.Sprint(err, " ", tail), Kind: "panic", Frame: "fatal", Class: "crash-under-concurrency"})
+		}
+	}
+	return nil
 }
